@@ -771,6 +771,18 @@ example :
       (match step3 cfgI s (.ibc (.toIbc 5 1 2)) with | .error .insufficient => true | _ => false) &&
       (match step3 cfgI s (.ibc (.toIbc 5 1 1)) with | .ok _ => true | _ => false)) = true := by decide
 
+/-- **the ibc-transfer module account keeps no base coin**: in every history of all layers its balance of every group's
+base coin is what it was initially — every base coin it mints (`IBCCoinToBaseCoin`) is paid out, every base coin it receives
+(`BaseCoinToIBCCoin`) is burned, and no bridge operation ever names that account (the base model's flows name neither a
+voucher nor the ibc-transfer module account: `opFlow_clean`) -/
+theorem transfer_module_keeps_no_base_coin (cfg : Cfg) (L : Ledger) (e0 : Nat → Nat → Nat) (ops : List Op3) (g : Nat) :
+    (runOps3 cfg (init3 (initE L e0)) ops).s2.base.L.bal (.base g) T = L.bal (.base g) T := by
+  have h := runOps3_tbase cfg ops (init3 (initE L e0)) g
+  have h5 : (init3 (initE L e0)).s2.base.L = L := rfl
+  rw [h5] at h
+  simp only [tbaseObs, balObs] at h
+  omega
+
 /-- **the IBC route, exactly**: `BaseCoinToIBCCoin` of `n` succeeds IF AND ONLY IF the holder has `n` base coins, the supply
 is at least `n`, and `n` vouchers are parked in the ibc-transfer module account — the voucher is one more alias whose escrow
 is per route, exactly like a bridge denomination (`moduleOwned_withdraw_iff`); value that came in through a bridge chain
